@@ -37,6 +37,7 @@ type Config struct {
 func (c Config) String() string { b, _ := json.Marshal(c); return string(b) }
 
 type opDef struct {
+	back  bool // the clock steps back by 10 ms (a corrected wall clock): counting in-flight entries does not depend on time
 	enter bool
 	res   string
 	batch uint32
@@ -44,6 +45,9 @@ type opDef struct {
 }
 
 func (o opDef) String() string {
+	if o.back {
+		return "clock-steps-back(10ms)"
+	}
 	if o.enter {
 		return fmt.Sprintf("E(%s,%d)", o.res, o.batch)
 	}
@@ -53,11 +57,12 @@ func (o opDef) String() string {
 const maxLive = 4
 
 type scen struct {
-	cfg   Config
-	ops   []opDef
-	rules map[string][]*isolation.Rule
-	live  [maxLive]*base.SentinelEntry
-	lres  [maxLive]string
+	stepped bool // the clock has stepped back once
+	cfg     Config
+	ops     []opDef
+	rules   map[string][]*isolation.Rule
+	live    [maxLive]*base.SentinelEntry
+	lres    [maxLive]string
 }
 
 func (s *scen) Name() string        { return s.cfg.String() }
@@ -66,6 +71,9 @@ func (s *scen) OpName(i int) string { return s.ops[i].String() }
 
 func (s *scen) Enabled(i int) bool {
 	o := s.ops[i]
+	if o.back {
+		return !s.stepped && !s.cfg.AtEpoch
+	}
 	if o.enter {
 		for _, e := range s.live {
 			if e == nil {
@@ -78,6 +86,7 @@ func (s *scen) Enabled(i int) bool {
 }
 
 func (s *scen) Reset() {
+	s.stepped = false
 	if s.cfg.AtEpoch {
 		env.ResetAll(env.DefaultGeometry, 0)
 	} else {
@@ -135,6 +144,11 @@ func (s *scen) gaugeCheck() string {
 
 func (s *scen) Apply(i int) (string, string) {
 	o := s.ops[i]
+	if o.back {
+		s.stepped = true
+		env.Clock.SetMs(env.Clock.Ms() - 10)
+		return "back", s.gaugeCheck()
+	}
 	if !o.enter {
 		s.live[o.slot].Exit()
 		s.live[o.slot] = nil
@@ -194,6 +208,7 @@ func (s *scen) thresholds(res string) []uint32 {
 
 func (s *scen) Key() string {
 	var b strings.Builder
+	fmt.Fprintf(&b, "%v|", s.stepped)
 	for i, e := range s.live {
 		if e != nil {
 			b.WriteString(s.lres[i])
@@ -237,6 +252,7 @@ func mkOps(cfg Config) []opDef {
 	for k := 0; k < maxLive; k++ {
 		ops = append(ops, opDef{slot: k})
 	}
+	ops = append(ops, opDef{back: true})
 	return ops
 }
 
